@@ -762,6 +762,11 @@ qb_ipcs_dispatch_connection_request(int32_t fd, int32_t revents, void *data)
 		res = -EINVAL;
 		goto dispatch_cleanup;
 	}
+	/*
+	 * The callbacks invoked from here may disconnect (and so release)
+	 * the connection: keep it alive until we are done looking at it.
+	 */
+	qb_ipcs_connection_ref(c);
 
 	if (revents & POLLNVAL) {
 		qb_util_log(LOG_DEBUG, "NVAL conn (%s)", c->description);
@@ -815,6 +820,10 @@ qb_ipcs_dispatch_connection_request(int32_t fd, int32_t revents, void *data)
 	do {
 		res = _process_request_(c, IPC_REQUEST_TIMEOUT);
 
+		if (c->state != QB_IPCS_CONNECTION_ESTABLISHED) {
+			/* disconnected from within msg_process */
+			res = -ESHUTDOWN;
+		}
 		if (res == -ESHUTDOWN) {
 			goto dispatch_cleanup;
 		}
@@ -854,9 +863,13 @@ qb_ipcs_dispatch_connection_request(int32_t fd, int32_t revents, void *data)
 	}
 
 dispatch_cleanup:
-	if (res != 0) {
+	if (res != 0 && c != NULL &&
+	    c->state != QB_IPCS_CONNECTION_SHUTTING_DOWN) {
+		/* (when already shutting down, the disconnect has been done
+		 * from a callback and must not be run a second time) */
 		qb_ipcs_disconnect(c);
 	}
+	qb_ipcs_connection_unref(c);
 	return res;
 }
 
